@@ -184,8 +184,8 @@ def place(digest, where):
 
 
 def _chain(now, nb0, na0, nb1, na1, nb2, na2, nb3, na3, v0, v1, v2, v3, p256, vak, vq, wak, wq, w, now2=5, vtop2=True, second=False,
-           shadow=None):
-    depth = part() + 1
+           shadow=None, tail=0, depth_override=None):
+    depth = depth_override if depth_override is not None else part() + 1
     nbs, nas, vs = [nb0, nb1, nb2, nb3][:depth], [na0, na1, na2, na3][:depth], [v0, v1, v2, v3][:depth]
     world = World()
     world.w = w
@@ -202,12 +202,17 @@ def _chain(now, nb0, na0, nb1, na1, nb2, na2, nb3, na3, v0, v1, v2, v3, p256, va
     auth = pat(7, 4)
     ak_digest = hashlib.sha256(b"KEY:" + ak_key + auth).digest()
     ak_msg = report_body(place(ak_digest, wak))
+    if tail == 2:
+        # signed bytes BEYOND the report body that begin with the binding hash, while the report-data field itself does not hold it
+        ak_msg = report_body(place(ak_digest, 2)) + ak_digest + bytes([0x5a]) * 32
     ak_sig = b"\x30\x01"
     world.right[(("vk", b"PUB:" + B64[0].encode()), ak_sig, hashlib.sha256(ak_msg).digest())] = vak
     # quote element
     custom = pat(20, 5)
     q_digest = hashlib.sha256(custom).digest()
     q_msg = pat(QUOTE_HEADER, 6) + report_body(place(q_digest, wq))
+    if tail == 1:
+        q_msg = pat(QUOTE_HEADER, 6) + report_body(place(q_digest, 2)) + q_digest + bytes([0x5a]) * 32
     q_sig = b"\x30\x02"
     world.right[(("vk", ak_key), q_sig, hashlib.sha256(q_msg).digest())] = vq
     els = [{"name": "quote", "type": "sgx_quote", "message": q_msg.hex(), "custom_data": custom.hex(),
@@ -247,9 +252,9 @@ def _chain(now, nb0, na0, nb1, na1, nb2, na2, nb3, na3, v0, v1, v2, v3, p256, va
                 if not (nbs[i] <= now_ <= nas[i] and vs_[i]):
                     failing = XNAMES[i]
                     break
-            if failing is None and not (p256 and vak and wak == 0):
+            if failing is None and not (p256 and vak and wak == 0 and tail != 2):
                 failing = "attestation"
-            if failing is None and not (vq and wq == 0):
+            if failing is None and not (vq and wq == 0 and tail != 1):
                 failing = "quote"
             g = got.get("quote")
             if failing is not None:
@@ -342,3 +347,22 @@ def shadow_root(vroot: bool, vshadow: bool, w: bool) -> bool:
     vs[depth - 1] = vroot
     big = 10 ** 9
     return _chain(5, -big, big, -big, big, -big, big, -big, big, vs[0], vs[1], vs[2], vs[3], True, True, True, 0, 0, w, shadow=vshadow)
+
+
+@obligation(tier="quick", parts=2, timeout=200, part_names=["quote message with trailing bytes", "attestation key message with trailing bytes"],
+            bounds="an otherwise valid chain (1..3 X.509 elements: symbolic) in which the signed message of the quote / of the attestation "
+                   "key is LONGER than its structure and the extra 64 bytes begin with the binding hash, while the report-data field "
+                   "does not hold it: refused at that element; signature verdicts symbolic",
+            examples=[(0, dict(depth=1, vak=True, vq=True, w=False)), (1, dict(depth=2, vak=True, vq=True, w=True)), (0, dict(depth=3, vak=True, vq=False, w=False))])
+def trailing_bytes(depth: int, vak: bool, vq: bool, w: bool) -> bool:
+    """
+    pre: 1 <= depth <= 3
+    post: _
+    """
+    big = 10 ** 9
+    d = 1
+    for k in (1, 2, 3):
+        if depth == k:       # (case split: the chain depth selects a concrete document)
+            d = k
+    return _chain(5, -big, big, -big, big, -big, big, -big, big, True, True, True, True, True, vak, vq, 0, 0, w, tail=1 + part(),
+                  depth_override=d)
